@@ -381,6 +381,32 @@ func Main(args []string) int {
 	defer os.RemoveAll(scratch)
 	c := &Ctx{ID: id, Tier: tier, Seed: seed, Workers: workers, Scratch: scratch, Replay: replay,
 		Ev: newEvidence(), knownHit: map[string]int{}, known: loadFindings(), start: time.Now()}
+	// Overall wall-clock watchdog: a change to the tree may make the REAL code loop
+	// for ever inside a check (seen with a seeded data race in the placement code).
+	// A check must terminate: when the generous deadline passes, the goroutine
+	// stacks are written next to the replays, the run is declared inconclusive
+	// (never a violation by wall clock alone) and the process exits 2.
+	deadline := 25 * time.Minute
+	if tier == "thorough" {
+		deadline = 4 * time.Hour
+	}
+	if s := os.Getenv("VERIF_DEADLINE"); s != "" {
+		if d, err := time.ParseDuration(s); err == nil && d > 0 {
+			deadline = d
+		}
+	}
+	go func() {
+		time.Sleep(deadline)
+		buf := make([]byte, 8<<20)
+		buf = buf[:runtime.Stack(buf, true)]
+		dir := filepath.Join(VerifDir, "replays", id)
+		os.MkdirAll(dir, 0755)
+		sp := filepath.Join(dir, fmt.Sprintf("deadline-%s-seed%d-stacks.txt", tier, seed))
+		ioutil.WriteFile(sp, buf, 0644)
+		fmt.Printf("INCONCLUSIVE property=%s the check did not finish within %v (goroutine stacks: %s); no verdict\n", id, deadline, sp)
+		os.RemoveAll(scratch)
+		os.Exit(2)
+	}()
 	var runErr error
 	func() {
 		defer func() {
